@@ -35,6 +35,7 @@ def generate(r, in_fn, allow_exempt=False):
     holder = []
     big_keys = []
     map_keys = []
+    temp_keys = []   # values of Box instances that only the map M refers to
     boxed = [None]
     captured = [None]
     in_tuple = [None]
@@ -103,14 +104,15 @@ def generate(r, in_fn, allow_exempt=False):
                 stats["grown"] += 1
             o.grown = True
             while o.cap < len(o.items):
-                o.cap *= 2
+                o.cap = max(o.cap * 2, 1)
         return text
 
     new_object()
     for _ in range(r.randint(6, 30)):
         act = r.choice(["new", "alias", "hold", "key", "box", "mut", "mut", "mut", "mut", "eq", "eq", "hhas", "mhas", "len",
                         "boxeq", "capture", "tuple", "observer", "fobs", "fobs", "fmut", "viaholder", "viabox", "growcall",
-                        "growcall", "bigkey", "itermut", "itermut", "table", "table"])
+                        "growcall", "bigkey", "itermut", "itermut", "table", "table", "copy", "copy", "tempkey", "walk", "walk",
+                        "pairs"])
         names = list(variables)
         a = r.choice(names)
         o = variables[a]
@@ -158,6 +160,52 @@ def generate(r, in_fn, allow_exempt=False):
             position = next((i for i, candidate in enumerate(ids) if candidate is target), None)
             expect.append("%s %s %d" % ("true" if position is not None else "false", position if position is not None else "nil", len(members)))
             stats["observations"] += 1
+        elif act == "copy" and o.kind == "list":
+            # sort, slice, rev and the collectors answer with a new object, whatever the length of the receiver: it is not
+            # the receiver, it is not any other list, and a later mutation of either is not seen through the other
+            how = r.choice(["sort", "sort", "slice", "slice1", "rev", "list", "collect"])
+            if how == "sort":
+                items, source = sorted(o.items), "%s.sort(|x, y| x - y)" % a
+            elif how == "slice":
+                items, source = list(o.items), "%s.slice()" % a
+            elif how == "slice1":
+                items, source = list(o.items[1:]), "%s.slice(1)" % a
+            elif how == "rev":
+                items, source = list(reversed(o.items)), "%s.rev()" % a
+            elif how == "list":
+                items, source = list(o.items), "%s.iter().list()" % a
+            else:
+                items, source = list(o.items), "%s.iter().into(List.collect)" % a
+            fresh = Obj(len(objs), "list", items)
+            # (sort, slice and rev size the copy like a literal; the collectors size it from the iterator's hint, exactly)
+            if how in ("list", "collect"):
+                fresh.cap = len(items)
+            objs.append(fresh)
+            name = "a%d" % len(variables)
+            variables[name] = fresh
+            body.append("let %s = %s;" % (name, source))
+            observe("%s == %s" % (name, a), "false", [o], stack_only=True)
+            body.append("print(%s);" % name)
+            expect.append("[%s]" % ", ".join(str(x) for x in items))
+            stats["observations"] += 1
+        elif act == "tempkey":
+            # a key that nothing but the map refers to
+            x = r.randint(100, 999)
+            body.append("M[Box(%d)] = %d;" % (x, x))
+            temp_keys.append(x)
+        elif act == "walk":
+            # walking the map reaches every key object, including the ones only the map keeps alive
+            total = sum(temp_keys) + sum(k.items[0] for k in map_keys if k.kind == "inst")
+            body.append("if true { let s = 0; let n = 0; for kv in M { n = n + 1; if kv[0].cls() == Box { s = s + kv[0].v; } } print(s, n, M.len()); }")
+            expect.append("%d %d %d" % (total, len(temp_keys) + len(map_keys), len(temp_keys) + len(map_keys)))
+            stats["observations"] += 1
+        elif act == "pairs" and o.kind == "map" and len(o.items) >= 2:
+            # every step of a map iterator hands out an entry of its own: entries kept by the program stay what they were
+            body.append("if true { let kept = []; for kv in %s { kept.push(kv); } let direct = %s.iter().list(); "
+                        "print(kept[0] == kept[1], direct[0] == direct[1], kept.iter().map(|kv| kv[0]).reduce(0, |x, y| x + y), "
+                        "direct.iter().map(|kv| kv[1]).reduce(0, |x, y| x + y), kept.len()); }" % (a, a))
+            expect.append("false false %d %d %d" % (sum(o.items), sum(o.items.values()), len(o.items)))
+            stats["observations"] += 1
         elif act == "bigkey":
             # any value works as a key, also in a map that has grown to a few hundred entries: equal numbers (0 and -0,
             # 2 and 2.0) find the same entry, objects find theirs
@@ -186,7 +234,7 @@ def generate(r, in_fn, allow_exempt=False):
                     stats["grown"] += 1
                 o.grown = True
                 while o.cap < len(o.items):
-                    o.cap *= 2
+                    o.cap = max(o.cap * 2, 1)
             expect.append("[%s]" % ", ".join(str(v) for v in o.items))
             stats["observations"] += 1
         elif act == "growcall" and o.kind == "list":
@@ -201,7 +249,7 @@ def generate(r, in_fn, allow_exempt=False):
                     stats["grown"] += 1
                 o.grown = True
                 while o.cap < len(o.items):
-                    o.cap *= 2
+                    o.cap = max(o.cap * 2, 1)
             observe("%s == %s" % (a, name), "true", [o], stack_only=True)
         elif act == "viaholder" and holder:
             i = r.randrange(len(holder))
@@ -233,7 +281,7 @@ def generate(r, in_fn, allow_exempt=False):
                         stats["grown"] += 1
                     target.grown = True
                     while target.cap < len(target.items):
-                        target.cap *= 2
+                        target.cap = max(target.cap * 2, 1)
             else:
                 x = r.randint(10, 99)
                 body.append("ask%d <- ['set', %d]; <- answer%d;" % (k, x, k))
